@@ -9,5 +9,6 @@ CONSTANTS
   BigLens = {65536}
   Variants = {"stored", "fixed", "fixed2", "bfinal", "std-2", "std1", "std2"}
   HModes = {"chain"}
+CONSTRAINT Emit
 INVARIANTS InvCompleteIsWhole InvOrder InvFailStop InvNothingPastViolation InvDecode
 CHECK_DEADLOCK FALSE
